@@ -106,7 +106,7 @@ pub fn classic_deserialize(b: &[u8]) -> Result<V, String> {
 pub fn consensus_serialize(v: &V) -> Vec<u8> {
     let mut a = Allocator::new();
     let n = v.to_node(&mut a);
-    clvmr::serde::node_to_bytes(&a, n).expect("node_to_bytes")
+    clvmr::serde::node_to_bytes_limit(&a, n, usize::MAX).expect("node_to_bytes")
 }
 
 pub fn consensus_deserialize(b: &[u8]) -> Result<V, String> {
@@ -128,4 +128,69 @@ pub fn parse_one(text: &str) -> Result<Rc<SExp>, String> {
         return Err(format!("parsed {} forms", r.len()));
     }
     Ok(r[0].clone())
+}
+
+/// the tool's own stepping evaluator (compiler::clvm::run), fixed integer mode
+pub fn run_stepper(prog: Rc<SExp>, env: &V, step_limit: usize) -> Result<V, String> {
+    let envr = to_rich(env, true)?;
+    run_stepper_rich(prog, envr, step_limit, true)
+}
+
+pub fn run_stepper_rich(prog: Rc<SExp>, env: Rc<SExp>, step_limit: usize, mode: bool) -> Result<V, String> {
+    with_int_mode(mode, || {
+        let mut a = Allocator::new();
+        let runner: Rc<dyn TRunProgram> = Rc::new(DefaultProgramRunner::new());
+        let r = chialisp::compiler::clvm::run(
+            &mut a,
+            runner,
+            chialisp::compiler::prims::prim_map(),
+            prog,
+            env,
+            None,
+            Some(step_limit),
+        );
+        match r {
+            Ok(v) => {
+                let n = convert_to_clvm_rs(&mut a, v).map_err(|e| format!("{e:?}"))?;
+                Ok(V::from_node(&a, n))
+            }
+            Err(e) => Err(format!("{e:?}")),
+        }
+    })
+}
+
+pub fn is_step_timeout(msg: &str) -> bool {
+    msg.contains("\"timeout\"")
+}
+
+/// the library entry point used by the bindings and by file-to-file compilation
+/// (`compile_clvm_text_maybe_opt`): handles classic and every sigil
+pub fn compile_lib(text: &str, do_optimize: bool, search: &[String]) -> Result<V, String> {
+    compile_lib_sym(text, do_optimize, search, "*verif*.clsp").map(|x| x.0)
+}
+
+pub fn compile_lib_sym(
+    text: &str,
+    do_optimize: bool,
+    search: &[String],
+    filename: &str,
+) -> Result<(V, std::collections::HashMap<String, String>), String> {
+    use chialisp::compiler::comptypes::CompilerOpts;
+    let mut a = Allocator::new();
+    let mut syms = std::collections::HashMap::new();
+    let opts: Rc<dyn CompilerOpts> =
+        Rc::new(chialisp::compiler::compiler::DefaultCompilerOpts::new(filename)).set_search_paths(search);
+    let r = chialisp::classic::clvm_tools::clvmc::compile_clvm_text_maybe_opt(
+        &mut a,
+        do_optimize,
+        opts.clone(),
+        &mut syms,
+        text,
+        filename,
+        true,
+    );
+    match r {
+        Ok(n) => Ok((V::from_node(&a, n), syms)),
+        Err(e) => Err(e.format(&a, opts)),
+    }
 }
